@@ -12,6 +12,9 @@ CHECKS = {
  'C01': dict(text="Machine-checked Lean 4 proofs, for every n, every commutative ring and every signature (zeros included): the code-shaped sign loops equal their spec, the blade sign is a 2-cocycle, hence the product built from the code's sign algorithm is a unital associative bilinear algebra in which e_i^2=sig_i, distinct generators anticommute, a blade is the ordered product of its generators and v*v=Q(v); Mathlib's CliffordAlgebra maps onto it. Tied to /repo by comparing entire multiplication tables, order arrays and bit kernels of the real library with the executable model (both JIT configurations), plus model-free predicates on the real code.",
              technique="Lean 4 proof (cocycle induction over bitmaps) + table/kernel correspondence with the executable model",
              design="§6 C01"),
+ 'C02': dict(text="Machine-checked Lean 4 proofs for every n, commutative ring and signature: the product defined by the geometric table masked with the code's grade predicate equals the grade r+s / |r-s| (0 for scalar operands) / s-r (0 when r>s) part of A*B on homogeneous operands, is bilinear, and the outer product equals a signature-free wedge that is associative and alternating on vectors. Tied to /repo by comparing the entire omt/imt/lcmt tables and the operators ^ | << lc with the executable model (both JIT configurations) and by evaluating the grade-part predicates on the real operators for every grade pair.",
+             technique="Lean 4 proof (popcount/xor grade identity, masked-table product) + table/operator correspondence with the executable model",
+             design="§6 C02"),
 }
 
 def main():
